@@ -331,6 +331,35 @@ func (tt *TermTable) Eq(a, b *Term) *Term {
 		}
 		return tt.Eq(a.a, mkConst(a.a.w, b.c))
 	}
+	// concatenations split at the same position compare piecewise
+	if a.op == OConcat && b.op == OConcat && a.a.w == b.a.w {
+		return tt.And(tt.Eq(a.a, b.a), tt.Eq(a.b, b.b))
+	}
+	if a.op == OConcat && b.op == OConst {
+		v := b.bigVal()
+		hi := new(big.Int).Rsh(v, uint(a.b.w))
+		lo := new(big.Int).And(v, new(big.Int).Sub(new(big.Int).Lsh(big.NewInt(1), uint(a.b.w)), big.NewInt(1)))
+		return tt.And(tt.Eq(a.a, mkBigConst(a.a.w, hi)), tt.Eq(a.b, mkBigConst(a.b.w, lo)))
+	}
+	if a.op == OConcat || b.op == OConcat {
+		c, o := a, b
+		if c.op != OConcat {
+			c, o = b, a
+		}
+		return tt.And(tt.Eq(c.a, tt.Extract(o, o.w-1, c.b.w)), tt.Eq(c.b, tt.Extract(o, c.b.w-1, 0)))
+	}
+	// two applications of the injective SHA-256 abstraction: equal iff same
+	// length and equal arguments (the inverse-function axioms say the same)
+	if a.op == OApp && b.op == OApp && isShaApp(a.name) && isShaApp(b.name) {
+		if a.name != b.name || len(a.args) != len(b.args) {
+			return tFalse
+		}
+		r := tTrue
+		for i := range a.args {
+			r = tt.And(r, tt.Eq(a.args[i], b.args[i]))
+		}
+		return r
+	}
 	if b.op != OConst && a.id > b.id {
 		a, b = b, a
 	}
